@@ -35,6 +35,7 @@ func (b *Buffer) Close() (err error) {
 		// write lock because it's for the cond (we need at least read for getting done + cancel)
 		verifAt("buffer.close.lock", b, 0)
 		b.mutex.Lock()
+		verifAt("buffer.close.locked", b, 0)
 		defer b.mutex.Unlock()
 
 		// all resources should be freed after this call - we will close the done channel
@@ -74,6 +75,7 @@ func (b *Buffer) Put(ctx context.Context, values ...interface{}) error {
 
 	verifAt("buffer.put.lock", b, len(values))
 	b.mutex.Lock()
+	verifAt("buffer.put.locked", b, 0)
 	defer b.mutex.Unlock()
 
 	if err := b.ctx.Err(); err != nil {
@@ -93,6 +95,7 @@ func (b *Buffer) NewConsumer() (Consumer, error) {
 
 	verifAt("buffer.newconsumer.lock", b, 0)
 	b.mutex.Lock()
+	verifAt("buffer.newconsumer.locked", b, 0)
 	defer b.mutex.Unlock()
 
 	if err := b.ctx.Err(); err != nil {
@@ -176,6 +179,7 @@ func (b *Buffer) SetCleanerConfig(config CleanerConfig) error {
 
 	verifAt("buffer.setcleaner.lock", b, 0)
 	b.mutex.Lock()
+	verifAt("buffer.setcleaner.locked", b, 0)
 	defer b.mutex.Unlock()
 
 	b.cleaner = &config
@@ -201,6 +205,7 @@ func (b *Buffer) Diff(c Consumer) (int, bool) {
 	// the consumer is always locked first
 	verifAt("buffer.diff.lock", cm, 0)
 	cm.mutex.Lock()
+	verifAt("buffer.diff.locked", cm, 0)
 	defer cm.mutex.Unlock()
 
 	// then the buffer itself (we only need a read lock)
@@ -255,6 +260,7 @@ func (b *Buffer) Range(ctx context.Context, c Consumer, fn func(index int, value
 func (b *Buffer) delete(c *consumer) {
 	verifAt("buffer.delete.lock", b, 0)
 	b.mutex.Lock()
+	verifAt("buffer.delete.locked", b, 0)
 	defer b.mutex.Unlock()
 
 	// remove the consumer if it is part of the buffer
@@ -268,6 +274,7 @@ func (b *Buffer) delete(c *consumer) {
 func (b *Buffer) commit(c *consumer, offset int) error {
 	verifAt("buffer.commit.lock", b, offset)
 	b.mutex.Lock()
+	verifAt("buffer.commit.locked", b, 0)
 	defer b.mutex.Unlock()
 
 	// retrieve the stored offset for the consumer
@@ -358,6 +365,7 @@ func (b *Buffer) getAsync(ctx context.Context, c *consumer, offset int, cancels 
 		// we need to wait for the value in the buffer, so we need to write lock the buffer
 		verifAt("buffer.getasync.waiter.lock", b, offset)
 		b.mutex.Lock()
+		verifAt("buffer.getasync.waiter.locked", b, 0)
 		defer b.mutex.Unlock()
 
 		// to break it down, while the input context is open AND the the buffer context is open AND all cancels
@@ -503,6 +511,7 @@ func (b *Buffer) cleanup() {
 			// lock so we can check timer safely
 			verifAt("buffer.cleanup.fn.lock", b, 0)
 			mutex.Lock()
+			verifAt("buffer.cleanup.fn.locked", b, 0)
 			defer mutex.Unlock()
 
 			// if timer is not nil we are currently waiting, we can just exit
@@ -570,6 +579,7 @@ func (b *Buffer) cleanup() {
 	// we need a write lock for the cond + we write
 	verifAt("buffer.cleanup.lock", b, 0)
 	b.mutex.Lock()
+	verifAt("buffer.cleanup.locked", b, 0)
 	defer b.mutex.Unlock()
 
 	// listen to broadcasts until the context is cancelled (it loops)
